@@ -5,6 +5,7 @@ import (
 	"sort"
 	"strings"
 	"sync"
+	"sync/atomic"
 	"testing"
 	"testing/synctest"
 
@@ -333,7 +334,11 @@ func init() {
 // ---- event-stream checker -------------------------------------------------------------------------
 
 type kSub struct {
-	name   string
+	name string
+	// park: when set and live, a delivery waits for the simulator before the events are read (the order in which the
+	// subscribers of one collection consume a batch is then the simulator's choice)
+	park   func(point, key string)
+	live   atomic.Bool
 	mu     sync.Mutex
 	state  map[string]string // contents reconstructed from the events
 	errs   []string
@@ -341,6 +346,9 @@ type kSub struct {
 }
 
 func (s *kSub) handle(evs []krt.Event[kOut]) {
+	if s.park != nil && s.live.Load() {
+		s.park("recorder", s.name)
+	}
 	s.mu.Lock()
 	defer s.mu.Unlock()
 	for _, e := range evs {
@@ -410,7 +418,10 @@ func runC16(t *testing.T, r *engine.Run) {
 		names[s.name] = true // fixed before any collection goroutine starts (the filter reads it concurrently)
 	}
 	names["ojoinP"], names["ojoinQ"] = true, true
-	sched.Filter = func(point, key string) bool { return controlled && point == "queue.task" && names[key] }
+	parkRecorders := tp.Bool(1, 2, "parkRecorders")
+	sched.Filter = func(point, key string) bool {
+		return controlled && (point == "queue.task" && names[key] || point == "recorder" && parkRecorders)
+	}
 	simhook.SetHook(sched.Yield)
 
 	// inputs
@@ -484,11 +495,16 @@ func runC16(t *testing.T, r *engine.Run) {
 		col := s.build(g)
 		g.built[s.name] = col
 		shapes = append(shapes, s)
-		sub := &kSub{name: s.name + "/early", state: map[string]string{}}
+		sub := &kSub{name: s.name + "/early", state: map[string]string{}, park: sched.Yield}
 		col.RegisterBatch(sub.handle, true)
 		subs[s.name] = append(subs[s.name], sub)
 	}
 	synctest.Wait()
+	for _, ss := range subs {
+		for _, sub := range ss {
+			sub.live.Store(true)
+		}
+	}
 	var shapeNames []string
 	for _, s := range shapes {
 		shapeNames = append(shapeNames, s.name)
@@ -590,11 +606,12 @@ func runC16(t *testing.T, r *engine.Run) {
 			// replay the stream cannot be checked from an empty state, so only the replaying form is checked)
 			lateDone = true
 			s := shapes[tp.Choose(len(shapes), "lateShape")]
-			sub := &kSub{name: s.name + "/late", state: map[string]string{}}
+			sub := &kSub{name: s.name + "/late", state: map[string]string{}, park: sched.Yield}
 			g.built[s.name].RegisterBatch(sub.handle, true)
 			subs[s.name] = append(subs[s.name], sub)
 			r.Probe("late_handler")
 			synctest.Wait()
+			sub.live.Store(true)
 		case "A", "C":
 			cur, col := curA, g.A
 			if a == "C" {
